@@ -273,6 +273,8 @@ def converse(c: Dict[str, Any]) -> Dict[str, Any]:
         ctx = ssl.create_default_context(cafile=fx['P']('oca-cert.pem' if optout else 'ca-cert.pem'))
         ctx.check_hostname = True
         b.settimeout(max(0.5, deadline - time.time()))
+        if c.get('split_records'):
+            return _converse_split_records(c, b, ctx, sni, out, deadline)
         try:
             t = ctx.wrap_socket(b, server_hostname=sni)
         except (ssl.SSLError, OSError) as e:
@@ -313,6 +315,88 @@ def converse(c: Dict[str, Any]) -> Dict[str, Any]:
             time.sleep(0.01)
         out['origin_conns'] = [dict(x) for x in origin.conns[n_before:]]
         out['executor_alive'] = ex['thread'].is_alive()
+
+
+def _converse_split_records(c: Dict[str, Any], b: Any, ctx: Any, sni: str, out: Dict[str, Any], deadline: float) -> Dict[str, Any]:
+    """The same conversation with a client whose TLS records reach the proxy in two TCP segments each (a memory-BIO TLS client:
+    the record bytes are cut at a drawn offset and the second part follows after a pause), so that the proxy's reads see
+    incomplete records and have to come back for the rest."""
+    inc, outg = ssl.MemoryBIO(), ssl.MemoryBIO()
+    obj = ctx.wrap_bio(inc, outg, server_hostname=sni)
+    splits = list(c['split_records'])
+
+    def flush(split: bool) -> None:
+        data = outg.read()
+        if not data:
+            return
+        if split and len(data) > 6 and splits:
+            k = 1 + splits.pop(0) % (len(data) - 1)
+            b.sendall(data[:k])
+            time.sleep(0.05)
+            b.sendall(data[k:])
+        else:
+            b.sendall(data)
+
+    def pull() -> bool:
+        try:
+            chunk = b.recv(65536)
+        except socket.timeout:
+            return False
+        except OSError:
+            return False
+        if not chunk:
+            return False
+        inc.write(chunk)
+        return True
+    try:
+        while True:
+            try:
+                obj.do_handshake()
+                break
+            except ssl.SSLWantReadError:
+                flush(False)
+                if time.time() > deadline or not pull():
+                    out['handshake'] = 'failed:eof-or-timeout:'
+                    return out
+        flush(False)
+    except ssl.SSLError as e:
+        out['handshake'] = 'failed:%s:%s' % (type(e).__name__, getattr(e, 'verify_message', '') or getattr(e, 'reason', ''))
+        return out
+    out['handshake'] = 'ok'
+    cert = obj.getpeercert()
+    out['peer_cert'] = {'subject': cert.get('subject'), 'issuer': cert.get('issuer'), 'san': cert.get('subjectAltName')}
+    out['stage'] = 'request'
+    req = G.render(c['req'])
+    pos = 0
+    for n in c['writes'] + [len(req)]:
+        if pos >= len(req):
+            break
+        obj.write(req[pos:pos + n])
+        pos += n
+        flush(True)
+    resp = b''
+    status = 'timeout'
+    while time.time() < deadline:
+        try:
+            chunk = obj.read(65536)
+            if not chunk:
+                status = 'eof'
+                break
+            resp += chunk
+            if _complete(resp):
+                status = 'ok'
+                break
+        except ssl.SSLWantReadError:
+            if not pull():
+                status = 'eof'
+                break
+        except ssl.SSLError as e:
+            status = 'error:%s' % type(e).__name__
+            break
+    out['client_app'] = resp
+    out['response_status'] = status
+    out['stage'] = 'done'
+    return out
 
 
 def _complete(x: bytes) -> bool:
@@ -427,7 +511,8 @@ def cases(draw: Any) -> Dict[str, Any]:
     raw_len = len(G.render(req))
     return {'origin': origin, 'host': host, 'insecure': draw(st.sampled_from([False, False, True])), 'req': req,
             'resp_size': draw(st.sampled_from([0, 10, 3000, 70000])),
-            'writes': draw(st.lists(st.integers(1, max(2, raw_len)), max_size=4))}
+            'writes': draw(st.lists(st.integers(1, max(2, raw_len)), max_size=4)),
+            'split_records': draw(st.lists(st.integers(0, 4000), min_size=1, max_size=6)) if draw(st.integers(0, 3)) == 0 else []}
 
 
 def shards(tier: str) -> List[Dict[str, Any]]:
@@ -447,7 +532,7 @@ def run_shard(spec: Dict[str, Any], seed: int, acc: Any) -> None:
             if info.get('dontcare'):
                 acc.dontcare += 1
             hostkind = 'ipv4' if c['host'][0].isdigit() else 'ipv6' if c['host'].startswith('[') else ('optout' if c['host'].startswith('optout') else 'name')
-            acc.case(c, info['nt'], labels=('origin:' + c['origin'], 'host:' + hostkind, 'insecure' if c['insecure'] else 'secure',
+            acc.case(c, info['nt'], labels=(('records-split-across-segments',) if c.get('split_records') else ()) + ('origin:' + c['origin'], 'host:' + hostkind, 'insecure' if c['insecure'] else 'secure',
                                            'stage:%s' % info['stage']))
             return vs
         hyp.drive(cases(), chk, acc, max_examples=spec['examples'], seed=seed, shrink=False, max_rounds=6)
